@@ -50,20 +50,23 @@ Proof.
   destruct C04.c04_assign as (A1 & _ & A3 & _).
   split; [exact (A1 U8 255 eq_refl eq_refl)|]. split; apply A3; cbn; discriminate.
 Qed.
-(* c04_conv: conjunct 1 (typed t, typed t', in_range), 3 and 4 (Ztrunc f = Some z, in_range) *)
+(* c04_conv: conjunct 1 (typed t, typed t', in_range), 3, 4 and 5 (Ztrunc f = Some z, in_range);
+   conjunct 5 (float64 -> uint32, added after the audit) on a value above the int32 range *)
 Lemma nv_c04_conv :
   Value_convert (V I32 (-1)) TypeUint8 = Ok (V U8 255) /\
   Value_convert (V U32 4294967295) TypeInt8 = Ok (V I8 (-1)) /\
   Value_convert (F (-3.75)%float) TypeInt32 = Ok (V I32 (-3)) /\
   Value_convert (F (200.5)%float) TypeUint8 = Ok (V U8 200) /\
-  Value_convert (F (-128.5)%float) TypeInt8 = Ok (V I8 (-128)).
+  Value_convert (F (-128.5)%float) TypeInt8 = Ok (V I8 (-128)) /\
+  Value_convert (F (4000000000.75)%float) TypeUint32 = Ok (V U32 4000000000).
 Proof.
-  destruct C04.c04_conv as (A1 & _ & A3 & A4).
+  destruct C04.c04_conv as (A1 & _ & A3 & A4 & A5).
   split; [exact (A1 I32 U8 (-1) eq_refl eq_refl eq_refl)|].
   split; [exact (A1 U32 I8 4294967295 eq_refl eq_refl eq_refl)|].
   split; [apply A3; vm_compute; reflexivity|].
   split; [apply (A4 U8); [right; reflexivity|vm_compute; reflexivity|reflexivity]|].
-  apply (A4 I8); [left; reflexivity|vm_compute; reflexivity|reflexivity].
+  split; [apply (A4 I8); [left; reflexivity|vm_compute; reflexivity|reflexivity]|].
+  apply A5; vm_compute; reflexivity.
 Qed.
 (* c04_wf: wf_value v, wf_value b -- mixed typed / untyped / float operands *)
 Lemma nv_c04_wf :
